@@ -455,6 +455,8 @@ pub fn build_node(it: &J) -> P {
             };
             with_completer(p, it)
         }
+        // a fixed word (`literal`): the next unclaimed word must be exactly this one
+        "pos" if !s(it, "lit").is_empty() => bpaf::literal(leak(&dstr(s(it, "lit")))).map(|_| Val::Unit).boxed(),
         "pos" => {
             let mv = metavar(it);
             let h = s(it, "help");
@@ -508,6 +510,20 @@ pub fn build_node(it: &J) -> P {
                 .map(|(k, br)| build_node(br).map(move |v| Val::Variant(k, Box::new(v))).boxed())
                 .collect();
             bpaf::choice(branches).boxed()
+        }
+        "alt" if b(it, "via_right_nested") => {
+            // the same choice nested to the right: construct!([a, construct!([b, construct!([c, ..])])])
+            let mut branches: Vec<P> = arr(it, "branches")
+                .iter()
+                .enumerate()
+                .map(|(k, br)| build_node(br).map(move |v| Val::Variant(k, Box::new(v))).boxed())
+                .collect();
+            let mut acc = branches.pop().expect("alt without branches");
+            while let Some(a) = branches.pop() {
+                let b2 = acc;
+                acc = construct!([a, b2]).boxed();
+            }
+            acc
         }
         "alt" => alt(arr(it, "branches").iter().map(build_node).collect()),
         "branch" => {
